@@ -172,6 +172,13 @@ let op_lit (args : str list) : str list =
            (match read_back h m s u with None -> [txt; "none"]
             | Some (((a, b), c), d) -> [txt; dec_of_n a; dec_of_n b; dec_of_n c; dec_of_n d])
        | _ -> ["none"])
+  | "datetext" :: yy :: mm :: dd :: _ ->
+      (match integer_new (text_of_hex yy), integer_new (text_of_hex mm), integer_new (text_of_hex dd) with
+       | Some y, Some m, Some d ->
+           let txt = S.concat "." (List.map dec_of_n (date_text y m d)) in
+           (match date_read_back y m d with None -> [txt; "none"]
+            | Some ((a, b), c) -> [txt; dec_of_n a; dec_of_n b; dec_of_n c])
+       | _ -> ["none"])
   | "addr" :: h :: _ ->
       (match address (text_of_hex h) with
        | None -> ["none"]
